@@ -322,6 +322,8 @@ class CallMixin:
         for k in self.repo.cls(cls)["mro"]:      # behavioural subtyping: an override without its own contract inherits the base one
             if f"{k}.{name}" in self.contracts:
                 return f"{k}.{name}"
+        if info.get("name") and info["name"] != name:      # alias of another method (append = push)
+            return self.method_contract_key(cls, info["name"], info)
         return f"{info['owner']}.{name}"
 
     def need_contract(self, key, node):
@@ -477,6 +479,14 @@ class CallMixin:
         pass
 
     def havoc_modifies(self, c, st, env):
+        saved_origin = st.origin
+        st.origin = c.qual
+        try:
+            self._havoc_modifies(c, st, env)
+        finally:
+            st.origin = saved_origin
+
+    def _havoc_modifies(self, c, st, env):
         for m in c.modifies:
             saved, saved_mod = st.env, self.cur_mod
             st.env = dict(env)
